@@ -251,3 +251,12 @@ Definition bin_view (o : outcome) : binview :=
   | OErr _ => BErr
   | _ => BOther
   end.
+
+(* ------------------------------------------------------------------ path predicate (used by wf and specs) *)
+(* clean absolute path, said without path.Clean: "/" followed by plain components
+   (non-empty, neither "." nor "..", no slash) separated by single slashes *)
+Definition is_clean_abs (p : bytes) : bool :=
+  match p with
+  | c :: r => Ascii.eqb c sl && (isempty r || forallb plainb (psplit r))
+  | [] => false
+  end.
